@@ -452,9 +452,14 @@ def _eligible_def(fn, any_name=False):
         # for the copy the call would make -- nothing in the helper can tell the difference
         kw = a.kwarg.arg
         passed = set(id(k.value) for n in ast.walk(fn) if isinstance(n, ast.Call) for k in n.keywords if k.arg is None and isinstance(k.value, ast.Name))
+        fn._vt_kw_consumed = False
         for n in ast.walk(fn):
             if isinstance(n, ast.Name) and n.id == kw and id(n) not in passed:
-                return None
+                # the helper looks into / hands on / changes the mapping itself: it then gets its own fresh dict
+                # (exactly what a call builds), see Inliner._bind -- unless it re-binds the name
+                if not isinstance(n.ctx, ast.Load):
+                    return None
+                fn._vt_kw_consumed = True
             if isinstance(n, ast.arg) and n.arg == kw and n is not a.kwarg:
                 return None
     kind = 'func'
@@ -643,6 +648,76 @@ def collect_context_managers(tree, anchors):
     return mod, cls
 
 
+# ---------------------------------------------------------------------------------------------- generators driving a for loop
+_YIELD_HERE = '__vt_yield_here__'
+
+
+def _eligible_gen(fn, anchors):
+    """A private, non-anchor generator whose body is straight-line statements followed by ONE loop whose last top-level
+    statement is the generator's only ``yield`` (an expression statement): -> (kind, fake definition with the yield replaced
+    by a placeholder).  ``for T in gen(..): BODY`` is then the generator's loop with ``T = <value>; BODY`` where the yield
+    stood (see Inliner._expand_for)."""
+    if not isinstance(fn, ast.FunctionDef) or fn.name in anchors or not fn.name.startswith('_') or fn.name.startswith('__'):
+        return None
+    ys = [n for n in ast.walk(fn) if isinstance(n, (ast.Yield, ast.YieldFrom))]
+    if len(ys) != 1 or not isinstance(ys[0], ast.Yield):
+        return None
+    body = list(fn.body)
+    if body and isinstance(body[0], ast.Expr) and isinstance(body[0].value, ast.Constant) and isinstance(body[0].value.value, str):
+        body = body[1:]
+    if body and isinstance(body[-1], ast.Return) and body[-1].value is None:
+        body = body[:-1]
+    if not body or not isinstance(body[-1], (ast.For, ast.While)) or body[-1].orelse or _contains_return(body):
+        return None
+    loop = body[-1]
+    last = loop.body[-1]
+    if not (isinstance(last, ast.Expr) and last.value is ys[0]):
+        return None
+    fake = copy.deepcopy(fn)
+    fake.decorator_list = [d for d in fake.decorator_list if isinstance(d, ast.Name) and d.id == 'staticmethod']
+    if len(fake.decorator_list) != len(fn.decorator_list):
+        return None
+    if isinstance(fake.body[-1], ast.Return):
+        fake.body = fake.body[:-1]
+    floop = fake.body[-1]
+    v = floop.body[-1].value.value
+    floop.body[-1] = ast.copy_location(ast.Expr(value=ast.Tuple(elts=[ast.Name(id=_YIELD_HERE, ctx=ast.Load())] +
+                                                                ([v] if v is not None else []), ctx=ast.Load())), floop.body[-1])
+    kind = _eligible_def(fake)
+    if kind is None:
+        return None
+    return kind, fake
+
+
+def collect_generators(tree, anchors):
+    mod, cls, counts = {}, {}, {}
+    for st in tree.body:
+        if isinstance(st, ast.ClassDef):
+            for m in st.body:
+                if isinstance(m, ast.FunctionDef):
+                    counts[m.name] = counts.get(m.name, 0) + 1
+    for st in tree.body:
+        if isinstance(st, ast.FunctionDef):
+            r = _eligible_gen(st, anchors)
+            if r is not None and r[0] == 'func':
+                h = Helper(r[1], 'func')
+                h.orig = st
+                mod[st.name] = h
+        elif isinstance(st, ast.ClassDef):
+            for m in st.body:
+                r = _eligible_gen(m, anchors) if isinstance(m, ast.FunctionDef) else None
+                if r is not None and counts.get(m.name) == 1:
+                    h = Helper(r[1], 'method' if r[0] == 'func' else r[0], st.name)
+                    h.orig = m
+                    cls[(st.name, m.name)] = h
+    for st in ast.walk(tree):
+        if isinstance(st, ast.Assign):
+            for t in st.targets:
+                if isinstance(t, ast.Name):
+                    mod.pop(t.id, None)
+    return mod, cls
+
+
 # ---------------------------------------------------------------------------------------------- private classes used as records
 def _self_fields_assigned(stmts):
     """Fields ``self.f`` assigned on every path through this statement list that completes normally."""
@@ -755,6 +830,7 @@ class Inliner(object):
         # foreign(name) -> True when another module of the analysed tree mentions ``name`` (None: unknown, assume it does)
         self.foreign = foreign
         self.cm_mod, self.cm_cls = collect_context_managers(tree, anchors)
+        self.gen_mod, self.gen_cls = collect_generators(tree, anchors)
         self.obj_classes = collect_object_classes(tree, anchors) if foreign is not None else {}
         self.used = set()           # ids of helper definitions expanded at least once
         self.shared_names = set()   # locals standing for the fields of a dissolved object: never renamed
@@ -959,7 +1035,25 @@ class Inliner(object):
                 rename[n] = new
                 taken.add(new)
         mapping, pre = {}, []
-        if kwparam is not None:
+        kw_consumed = kwparam is not None and getattr(fn, '_vt_kw_consumed', False)
+        if kw_consumed:
+            # the helper uses its ``**kw`` as a mapping: bind it to the fresh dict the call would build
+            real = binding[kwparam]
+            if isinstance(real, ast.Dict) and not real.keys:
+                val = ast.Dict(keys=[ast.Constant(value=e.arg) for e in extra_kws], values=[copy.deepcopy(e.value) for e in extra_kws])
+            else:
+                val = ast.Call(func=ast.Name(id='dict', ctx=ast.Load()), args=[copy.deepcopy(real)],
+                               keywords=[ast.keyword(arg=e.arg, value=copy.deepcopy(e.value)) for e in extra_kws])
+                if 'dict' in caller_names:
+                    raise CannotInline('dict is shadowed')
+            tgt = kwparam
+            while tgt in taken or (tgt != kwparam and tgt in stored):
+                tgt += '_'
+            taken.add(tgt)
+            rename[kwparam] = tgt
+            pre.append(ast.copy_location(ast.Assign(targets=[ast.Name(id=tgt, ctx=ast.Store())], value=val), call))
+            extra_kws = []
+        elif kwparam is not None:
             mapping[kwparam] = ast.Name(id=_KW_PASS, ctx=ast.Load())      # only ever read as ``**kw``: see below
         for p in params + kwonly:
             v = binding[p]
@@ -977,7 +1071,7 @@ class Inliner(object):
                 mapping[p] = v
         sub = _Subst(mapping, rename)
         body = [sub.visit(s) for s in body]
-        if kwparam is not None:
+        if kwparam is not None and not kw_consumed:
             # ``g(.., **kw)`` in the helper: the caller's explicit extra keywords, then the caller's own ``**mapping``
             real = binding[kwparam]
             empty = isinstance(real, ast.Dict) and not real.keys
@@ -1093,6 +1187,43 @@ class Inliner(object):
         body = put(body)
         if done[0] != 1:
             raise CannotInline('yield position lost')
+        self.used.add(id(h.orig))
+        return pre + body
+
+    # -- ``for T in gen(..): BODY`` for a one-loop generator of this module ----------------------------------
+    def _expand_for(self, s, cls_name, caller_names):
+        """The generator runs its prefix when the loop starts, then one iteration of its own loop per item, suspended at the
+        yield while BODY runs; the yield is the last statement of that loop, so ``continue`` in BODY (next item) is
+        ``continue`` of the generator's loop, and ``break`` / ``return`` in BODY (the generator is closed; nothing follows
+        its loop) leave it the same way."""
+        call = s.iter
+        f = call.func
+        if s.orelse or any(isinstance(a, ast.Starred) for a in call.args) or any(k.arg is None for k in call.keywords):
+            return None
+        h, recv = None, None
+        if isinstance(f, ast.Name) and f.id in self.gen_mod and f.id not in self.shadowed:
+            h = self.gen_mod[f.id]
+        elif isinstance(f, ast.Attribute) and isinstance(f.value, ast.Name) and f.value.id in ('self', 'cls') and cls_name is not None:
+            h = self._inherited_helper(cls_name, f.attr, self.gen_cls)
+            recv = f.value
+        if h is None:
+            return None
+        pre, body = self._bind(h, call, recv, caller_names, None)
+        loop = body[-1]
+        ph = loop.body[-1]
+        if not (isinstance(ph, ast.Expr) and isinstance(ph.value, ast.Tuple) and ph.value.elts and
+                isinstance(ph.value.elts[0], ast.Name) and ph.value.elts[0].id == _YIELD_HERE):
+            raise CannotInline('yield position lost')
+        v = ph.value.elts[1] if len(ph.value.elts) > 1 else ast.copy_location(ast.Constant(value=None), ph)
+        tgt = s.target
+        if isinstance(tgt, ast.Tuple) and isinstance(v, ast.Tuple) and len(tgt.elts) == len(v.elts) and \
+                not any(isinstance(e, ast.Starred) for e in tgt.elts + v.elts) and \
+                not (set(n.id for e in tgt.elts for n in ast.walk(e) if isinstance(n, ast.Name)) &
+                     set(n.id for e in v.elts for n in ast.walk(e) if isinstance(n, ast.Name))):
+            assigns = [ast.copy_location(ast.Assign(targets=[t], value=e), s) for t, e in zip(tgt.elts, v.elts)]
+        else:
+            assigns = [ast.copy_location(ast.Assign(targets=[tgt], value=v), s)]
+        loop.body = loop.body[:-1] + assigns + list(s.body)
         self.used.add(id(h.orig))
         return pre + body
 
@@ -1264,6 +1395,10 @@ class Inliner(object):
         try:
             if isinstance(s, ast.With):
                 rep = self._expand_with(s, cls_name, caller_names)
+                if rep is not None:
+                    return rep
+            if isinstance(s, ast.For) and isinstance(s.iter, ast.Call):
+                rep = self._expand_for(s, cls_name, caller_names)
                 if rep is not None:
                     return rep
             if isinstance(s, ast.Return) and isinstance(s.value, ast.Call):
